@@ -75,7 +75,10 @@ Proof. exact ris_pre_cases. Qed.
 (* the screen after ESC c is the one Screen::new builds for the current size and capacity; the
    vte state is the initial one; the callback policy is kept; the log only grows by the events of
    what the ESC byte terminated ([ris_events]) — the RIS itself reports nothing *)
+(* [pend p = []]: no bytes of an unfinished utf-8 character are held back by the parser (K04a repair);
+   with held-back bytes see C17_any *)
 Theorem C17_process : forall p q,
+  pend p = [] ->
   pwf (vt p) -> process p [27; 99] = Ok q ->
   let s0 := fresh_screen (grows (g (scr p))) (gcols (g (scr p))) (sb_cap (g (scr p))) in
   screen_new (grows (g (scr p))) (gcols (g (scr p))) (sb_cap (g (scr p))) = Ok s0 /\
@@ -89,35 +92,40 @@ Proof. exact ris_events_nil. Qed.
 
 (* "the Callbacks object is not touched" *)
 Theorem C17_callbacks_untouched : forall p q,
+  pend p = [] ->
   pwf (vt p) -> vst (vt p) = Ground -> partial (vt p) = [] ->
   process p [27; 99] = Ok q -> log q = log p.
 Proof. exact ris_silent. Qed.
 
 (* no panic *)
-Theorem C17_total : forall p, pwf (vt p) -> 1 <= grows (g (scr p)) ->
+Theorem C17_total : forall p, pend p = [] -> pwf (vt p) -> 1 <= grows (g (scr p)) ->
   process p [27; 99] =
   Ok (mkParser p_init (fresh_screen (grows (g (scr p))) (gcols (g (scr p))) (sb_cap (g (scr p))))
-               (log p ++ ris_events (vt p)) (resizing p)).
+               (log p ++ ris_events (vt p)) (resizing p) []).
 Proof. exact ris_process_total. Qed.
 Theorem C17_ok : forall p, parser_ok p -> exists q, process p [27; 99] = Ok q /\ parser_ok q.
 Proof. exact ris_process_ok. Qed.
+(* with any held-back bytes: vte ends exactly in its initial state and nothing is held back *)
+Theorem C17_any : forall p q, parser_ok p -> process p [27; 99] = Ok q -> vt q = p_init /\ pend q = [].
+Proof. exact ris_process_any. Qed.
 
 (* ---- 4. later input ---- *)
 
 (* the event log is write-only: running any API history from a parser with log [l] is running it
    from the same parser with an empty log and prepending [l] *)
-Theorem C17_log_prefix_ok : forall ops v s l rz v' s' l' rz',
-  Parser.run (mkParser v s l rz) ops = Ok (mkParser v' s' l' rz') <->
-  exists e, Parser.run (mkParser v s [] rz) ops = Ok (mkParser v' s' e rz') /\ l' = l ++ e.
+Theorem C17_log_prefix_ok : forall ops v s l rz pd v' s' l' rz' pd',
+  Parser.run (mkParser v s l rz pd) ops = Ok (mkParser v' s' l' rz' pd') <->
+  exists e, Parser.run (mkParser v s [] rz pd) ops = Ok (mkParser v' s' e rz' pd') /\ l' = l ++ e.
 Proof. exact run_log_prefix_ok. Qed.
-Theorem C17_log_prefix_panic : forall ops v s l rz k,
-  Parser.run (mkParser v s l rz) ops = Panic k <-> Parser.run (mkParser v s [] rz) ops = Panic k.
+Theorem C17_log_prefix_panic : forall ops v s l rz pd k,
+  Parser.run (mkParser v s l rz pd) ops = Panic k <-> Parser.run (mkParser v s [] rz pd) ops = Panic k.
 Proof. exact run_log_prefix_panic. Qed.
 
 (* after ESC c, every later history (process / write / set_size / set_scrollback calls) behaves
    exactly as on Parser::new(current rows, current cols, current capacity): same vte state, same
    screen, same policy, logs that differ exactly by the prefix [log q]; both panic or neither *)
 Theorem C17_main : forall p q,
+  pend p = [] ->
   pwf (vt p) -> process p [27; 99] = Ok q ->
   exists pf,
     parser_new (grows (g (scr p))) (gcols (g (scr p))) (sb_cap (g (scr p))) (resizing p) = Ok pf /\
@@ -132,10 +140,12 @@ Theorem C17_main : forall p q,
       end.
 Proof. exact ris_then_fresh. Qed.
 
-(* the same for every parser reachable through the API (no hypothesis on the state) *)
+(* the same for every parser reachable through the API that holds no bytes back (no other
+   hypothesis on the state) *)
 Theorem C17_reachable : forall r c cap rz ops p0 p,
   1 <= r <= MAXDIM -> 1 <= c <= MAXDIM ->
   parser_new r c cap rz = Ok p0 -> Forall op_ok ops -> Parser.run p0 ops = Ok p ->
+  pend p = [] ->
   exists q pf,
     process p [27; 99] = Ok q /\
     parser_new (grows (g (scr p))) (gcols (g (scr p))) (sb_cap (g (scr p))) (resizing p) = Ok pf /\
@@ -175,6 +185,7 @@ Print Assumptions C17_process.
 Print Assumptions C17_callbacks_untouched.
 Print Assumptions C17_total.
 Print Assumptions C17_ok.
+Print Assumptions C17_any.
 Print Assumptions C17_log_prefix_ok.
 Print Assumptions C17_log_prefix_panic.
 Print Assumptions C17_main.
